@@ -83,6 +83,12 @@ static std::string read_file(const std::string &path)
 	return ss.str();
 }
 
+void note_subcase(const json &patch)
+{
+	std::string s = "\n@@SUBCASE " + patch.dump() + "\n";
+	write_all(2, s);
+}
+
 static json judge_to_json(const JudgeOut &o)
 {
 	json j;
@@ -193,7 +199,16 @@ static IsoResult parse_iso(const std::string &out, const std::string &err, int s
 	// keep the tail of the report as detail
 	v.detail = err.size() > 3000 ? err.substr(0, 3000) : err;
 	v.plan = nullptr;
-	(void)plan;
+	size_t sc = err.rfind("@@SUBCASE ");
+	if (sc != std::string::npos) {
+		size_t e = err.find('\n', sc);
+		try {
+			json patch = json::parse(err.substr(sc + 10, e == std::string::npos ? std::string::npos : e - sc - 10));
+			v.plan = plan.patch(patch);
+		} catch (std::exception &ex) {
+			v.plan = nullptr;
+		}
+	}
 	r.viol.push_back(v);
 	return r;
 }
@@ -666,6 +681,12 @@ int run_check(const CheckArgs &a)
 	mkdir((outdir + "/replay").c_str(), 0755);
 	mkdir((outdir + "/tmp").c_str(), 0755);
 	std::vector<Known> known = load_known(a.verif_dir);
+	{
+		// stale replay files of this property must not be mistaken for results of this run
+		std::string cmd = "rm -f " + outdir + "/replay/" + P.id + "-*.json";
+		if (system(cmd.c_str()) != 0) {
+		}
+	}
 
 	int nw = a.workers;
 	std::vector<WorkerSlot> slots(nw);
@@ -835,6 +856,7 @@ int run_check(const CheckArgs &a)
 	uint64_t violations = 0, known_seen = 0, gate_failures = 0;
 	json findings = json::array();
 	std::set<std::string> handled;
+	std::map<std::string, std::vector<std::string>> known_hits;
 	std::string tmpdir = outdir + "/tmp";
 	for (auto &c : cands) {
 		if (c.from_crash) {
@@ -864,7 +886,9 @@ int run_check(const CheckArgs &a)
 			continue;
 		}
 		uint64_t used = 0;
-		json minimal = minimise(P, c.plan, c.cls, a.tier ? 3000 : 1200, a.tier ? 40 : 15, &used);
+		const Known *k = match_known(known, P.id, c.cls);
+		// a listed finding is not minimised again on every run: its replay file is the gated plan
+		json minimal = k ? c.plan : minimise(P, c.plan, c.cls, a.tier ? 3000 : 1200, a.tier ? 40 : 15, &used);
 		IsoResult g4 = eval_fresh_process(minimal, tmpdir);
 		if (!g4.has(c.cls))
 			minimal = c.plan; // keep the un-minimised plan: it passed the gate
@@ -885,12 +909,10 @@ int run_check(const CheckArgs &a)
 			std::ofstream f(rp);
 			f << minimal.dump(1) << "\n";
 		}
-		const Known *k = match_known(known, P.id, c.cls);
 		json fj = {{"class", c.cls}, {"count", cls_counts[c.cls]}, {"replay", rp}, {"steps", minimal.contains("steps") ? minimal["steps"].size() : 0}};
 		if (k) {
 			known_seen++;
-			dprintf(g_out_fd, "KNOWN-FINDING: property=%s %s [class %s, %lu runs, replay=%s]\n", P.id.c_str(), k->what.c_str(), c.cls.c_str(),
-				(unsigned long)cls_counts[c.cls], rp.c_str());
+			known_hits[k->what].push_back(c.cls + " (" + std::to_string(cls_counts[c.cls]) + " runs, replay=" + rp + ")");
 			fj["known"] = true;
 		} else {
 			violations++;
@@ -901,6 +923,11 @@ int run_check(const CheckArgs &a)
 			fj["known"] = false;
 		}
 		findings.push_back(fj);
+	}
+	for (auto &kh : known_hits) {
+		dprintf(g_out_fd, "KNOWN-FINDING: property=%s %s\n", P.id.c_str(), kh.first.c_str());
+		for (auto &c : kh.second)
+			dprintf(g_out_fd, "  seen as class %s\n", c.c_str());
 	}
 	if (nondet) {
 		fprintf(stderr, "DETERMINISM: %lu re-checked runs produced a different event-log hash\n", (unsigned long)nondet);
